@@ -111,5 +111,36 @@ __CPROVER_ensures((!(P1_SS->raw && (OLD(P1_SM->m_header_len) != 4 || OLD_BE32(HD
 /* C15: the send descriptor is cleared exactly when nothing more can be accepted */
 __CPROVER_ensures((g_fin_calls > OLD(g_fin_calls) && g_fin_last_rv == 0 && P1_SS->wmq.lmq_len >= P1_SS->wmq.lmq_cap && !P1_SS->wr_ready) ==> !g_pollw)
 ;
+
+/* ---- socket receive (C08 ordered/lossless hand-off, C15 non-blocking rule) ---- */
+#define P1_RS ((pair1_sock *) arg)
+#define P1_HELD (P1_RS->p->aio_recv.a_msg)
+static void pair1_sock_recv(void *arg, nni_aio *aio)
+__CPROVER_requires(P1_SOCK_PRE_R(P1_RS) && VP_NO_LOCK_HELD)
+__CPROVER_requires(__CPROVER_is_fresh(aio, sizeof(nni_aio)) && VP_AIO_NOT_QUEUED(aio) && g_qa.n < 8)
+/* a message held back by a full buffer belongs to the attached pipe */
+__CPROVER_requires(P1_RS->rd_ready ==> (__CPROVER_is_fresh(P1_RS->p, sizeof(struct pair1_pipe)) && __CPROVER_is_fresh(P1_HELD, sizeof(struct nng_msg))))
+__CPROVER_requires(P1_RS->rd_ready ==> g_p2 == (void *) P1_HELD)
+__CPROVER_requires(P1_RS->rmq.lmq_len > 0 ==> __CPROVER_is_fresh(LMQ_VIEW(&P1_RS->rmq, 0), sizeof(struct nng_msg)))
+/* stable state: receivers wait only when nothing is buffered or held; a message is held only when the buffer is full */
+__CPROVER_requires(g_qa.n == 0 || (P1_RS->rmq.lmq_len == 0 && !P1_RS->rd_ready))
+__CPROVER_requires(!P1_RS->rd_ready || P1_RS->rmq.lmq_len >= P1_RS->rmq.lmq_cap)
+__CPROVER_requires(g_k < P1_RS->rmq.lmq_len ==> g_p == (void *) LMQ_VIEW(&P1_RS->rmq, g_k))
+__CPROVER_assigns(aio->a_msg, aio->a_result, aio->a_count, P1_RS->rd_ready, P1_RS->rmq.lmq_get, P1_RS->rmq.lmq_put, P1_RS->rmq.lmq_len, __CPROVER_object_whole(P1_RS->rmq.lmq_msgs), VP_PROTO_GHOST_LIST, VP_SYNC_GHOSTS)
+__CPROVER_assigns(P1_RS->rd_ready: P1_RS->p->aio_recv.a_msg)
+__CPROVER_ensures(VP_NO_LOCK_HELD && VP_AIOQS_OK && LMQ_WF_SCALAR(&P1_RS->rmq))
+/* buffered: the caller gets the OLDEST queued message now, success, timeout not consulted */
+__CPROVER_ensures((OLD(P1_RS->rmq.lmq_len) > 0 && g_k == 0) ==> (g_fin_calls == OLD(g_fin_calls) + 1 && g_fin_last == aio && g_fin_last_rv == 0 && (void *) aio->a_msg == g_p && g_start_calls == OLD(g_start_calls)))
+/* ... the rest keeps its order, and a held-back message is appended behind it and the pipe read re-armed */
+__CPROVER_ensures((OLD(P1_RS->rmq.lmq_len) > 0 && g_k >= 1 && g_k < OLD(P1_RS->rmq.lmq_len)) ==> (void *) LMQ_VIEW(&P1_RS->rmq, g_k - 1) == g_p)
+__CPROVER_ensures((OLD(P1_RS->rmq.lmq_len) > 0 && !OLD(P1_RS->rd_ready)) ==> (P1_RS->rmq.lmq_len == OLD(P1_RS->rmq.lmq_len) - 1 && g_pipe_recv_calls == OLD(g_pipe_recv_calls)))
+__CPROVER_ensures((OLD(P1_RS->rmq.lmq_len) > 0 && OLD(P1_RS->rd_ready)) ==> (P1_RS->rmq.lmq_len == OLD(P1_RS->rmq.lmq_len) && LMQ_VIEW(&P1_RS->rmq, P1_RS->rmq.lmq_len - 1) == (nni_msg *) g_p2 && P1_HELD == NULL && !P1_RS->rd_ready && g_pipe_recv_calls == OLD(g_pipe_recv_calls) + 1 && g_pipe_recv_aio == &P1_RS->p->aio_recv))
+/* unbuffered hand-off: the held message goes straight to the caller */
+__CPROVER_ensures((OLD(P1_RS->rmq.lmq_len) == 0 && OLD(P1_RS->rd_ready)) ==> (g_fin_calls == OLD(g_fin_calls) + 1 && g_fin_last == aio && g_fin_last_rv == 0 && aio->a_msg == (nni_msg *) g_p2 && P1_HELD == NULL && !P1_RS->rd_ready && g_pipe_recv_calls == OLD(g_pipe_recv_calls) + 1 && g_start_calls == OLD(g_start_calls) && !g_pollr))
+/* nothing available: started once; refused => not queued */
+__CPROVER_ensures((OLD(P1_RS->rmq.lmq_len) == 0 && !OLD(P1_RS->rd_ready)) ==> (g_start_calls == OLD(g_start_calls) + 1 && g_start_last == aio && g_fin_calls == OLD(g_fin_calls) && g_qa.n == OLD(g_qa.n) + (g_aio_start_ok ? 1 : 0) && g_pipe_recv_calls == OLD(g_pipe_recv_calls)))
+/* C15: after a successful receive the descriptor is readable iff something is still buffered */
+__CPROVER_ensures((g_fin_calls > OLD(g_fin_calls) && P1_RS->rmq.lmq_len == 0) ==> !g_pollr)
+;
 /* clang-format on */
 #endif
